@@ -220,24 +220,89 @@ def r_stream(u):
     return N(u.it, None, u.n)
 
 
+def counted(node, counter):
+    """Wrap a node so that every fetch from it is counted the way the
+    profiling wrapper documents it: counter[0] successful fetches, counter[1]
+    fetches that raised an Exception."""
+    def it():
+        inner = node.it()
+        while True:
+            try:
+                x = next(inner)
+            except StopIteration:
+                return
+            except Exception:
+                counter[1] += 1
+                raise
+            counter[0] += 1
+            yield x
+
+    def wrap(fn):
+        if fn is None:
+            return None
+
+        def g(*a):
+            try:
+                r = fn(*a)
+            except Exception:
+                counter[1] += 1
+                raise
+            counter[0] += 1
+            return r
+        return g
+    new = N(it, wrap(node.get), node.n, node.keys, wrap(node.bykey))
+    new.batched = node.batched
+    return new
+
+
+def r_catch(u, exc):
+    def it():
+        for i in range(u.n):
+            try:
+                yield u.get(i)
+            except exc:
+                pass
+    return N(it, None, None, None, u.bykey)
+
+
 class Build:
     """Evaluates a program lazily.  `fns` provides the logging functions (same
     factory interface as programs.Fns); `scratch` receives the calls made at
     construction time by eager operations."""
 
-    def __init__(self, fns):
+    def __init__(self, fns, count=False):
         self.fns = fns
         self.lookahead = 0          # read-ahead the real pipeline may have
         self.pool_stage = False     # a thread pool may log out of order
         self.eager = False
+        self.count = count
+        self.trace = []             # (label, lines in the repr, counter) post-order
+
+    def note(self, node, label, lines):
+        if not self.count or lines == 0:
+            return node
+        counter = [0, 0]
+        self.trace.append((label, lines, counter))
+        return counted(node, counter)
 
     def run(self, prog, stage_prefix='s'):
-        u = r_src(prog['src'])
+        src = prog['src']
+        u = self.note(r_src(src), 'source', 1 if src[2] == 'wu' else 2)
         for i, op in enumerate(prog['ops']):
             u = self.apply(u, op, f'{stage_prefix}{i}')
         return u
 
     def apply(self, u, op, stage):
+        new = self._apply(u, op, stage)
+        k = op[0]
+        if k in ('copy', 'freeze') or (k == 'tile' and op[1] == 1):
+            return new
+        if k == 'ecache':
+            del self.trace[:]
+            return self.note(new, 'ecache-source', 2)
+        return self.note(new, k, 1)
+
+    def _apply(self, u, op, stage):
         fns = self.fns
         k = op[0]
         operand = None
@@ -326,7 +391,10 @@ class Build:
                 keys = None
             return r_fixed([v for _, v in ent], keys)
         if k == 'catch':
-            return r_by_index(u)
+            exc = getattr(fns, 'catch_exc', None)
+            return r_catch(u, exc) if exc is not None else r_by_index(u)
+        if k == 'mapfail':
+            return r_map(u, fns.raiser(op[1], op[2], stage))
         if k in ('copy', 'freeze'):
             return r_same(u)
         if k == 'prefetch1':
